@@ -4,7 +4,10 @@ package txfile
 
 // Entry points of the from-init program harnesses.
 
-var verifAllOps = []int{opAlloc, opAllocN, opOverwrite, opPartial, opLoadDirty, opFree, opFlush, opCheckpoint, opSetRoot, opPageFlush}
+var verifAllOps = []int{opAlloc, opAllocN, opOverwrite, opPartial, opLoadDirty, opFree, opFlush, opCheckpoint, opSetRoot, opPageFlush, opRead}
+
+// operations that matter for the overwrite log (WAL) and its checkpoints
+var verifWalOps = []int{opOverwrite, opPartial, opRead, opFlush, opCheckpoint, opFree, opAlloc}
 var verifAllEnds = []int{endCommit, endRollback, endClose}
 
 // setup commits two pages (ids chosen by the allocator) and a root.
@@ -32,6 +35,14 @@ func VerifProgStore() {
 	cfg := &progCfg{maxPages: 64, ops: verifAllOps, endings: verifAllEnds, checkInTx: true}
 	cfg.metaArea = uint32(verifParam("metaarea", 0))
 	cfg.walLimit = uint(verifParam("wallimit", 0))
+	switch verifParam("walops", 0) {
+	case 1:
+		cfg.ops = verifWalOps
+		cfg.endings = []int{endCommit}
+	case 2:
+		cfg.ops = []int{opOverwrite, opRead, opFlush}
+		cfg.endings = []int{endCommit}
+	}
 	s := verifNewProg(cfg)
 	s.checkSpace("after create")
 	s.setup(verifParam("setup", 2))
@@ -69,6 +80,8 @@ func verifCfgVariant(cfg *progCfg) {
 	case 4:
 		cfg.metaArea = 4
 		cfg.walLimit = 1
+	case 5:
+		cfg.extraSize = 1000 // MaxSize is not a multiple of the page size
 	}
 }
 
@@ -76,7 +89,8 @@ func verifCfgVariant(cfg *progCfg) {
 // commit leaves the in-memory state, the stats, the file size and the outcome
 // of later allocations exactly as they were at Begin.
 func VerifProgAbort() {
-	cfg := &progCfg{maxPages: 64, ops: verifAllocOps, endings: []int{endRollback, endClose}, checkInTx: true}
+	aborts := []int{endRollback, endClose, endFailCommit}
+	cfg := &progCfg{maxPages: 64, ops: verifAllocOps, endings: aborts, checkInTx: true}
 	verifCfgVariant(cfg)
 	s := verifNewProg(cfg)
 	s.setup(verifParam("setup", 2))
@@ -85,7 +99,7 @@ func VerifProgAbort() {
 		cfg.nOps = verifParam("pre", 1)
 		cfg.endings = []int{endCommit}
 		s.runTx()
-		cfg.endings = []int{endRollback, endClose}
+		cfg.endings = aborts
 	}
 	before := snapOf(s.f)
 	statsBefore := s.f.stats
@@ -93,7 +107,10 @@ func VerifProgAbort() {
 	s.assertPartition("before the aborted transaction")
 
 	cfg.nOps = verifParam("nops", 2)
-	s.runTx()
+	if s.runTx() == endCommit {
+		verifReach("end") // the injected failure was not hit: the transaction committed
+		return
+	}
 
 	assertSnapEqual(before, snapOf(s.f), "after abort", true)
 	verifAssert(s.f.stats == statsBefore, "after abort: FileStats unchanged")
@@ -122,7 +139,7 @@ func VerifProgAbort() {
 // VerifProgOwn (C04, C11): ownership partition, counting identity and stats
 // after every commit of symbolic allocation/free/overwrite programs.
 func VerifProgOwn() {
-	cfg := &progCfg{maxPages: 64, ops: verifAllocOps, endings: []int{endCommit}, checkInTx: false}
+	cfg := &progCfg{maxPages: 64, ops: verifAllocOps, endings: verifAllEnds, checkInTx: false}
 	verifCfgVariant(cfg)
 	s := verifNewProg(cfg)
 	s.setup(verifParam("setup", 2))
@@ -131,10 +148,27 @@ func VerifProgOwn() {
 	for t := 0; t < ntx; t++ {
 		cfg.nOps = verifParam("nops", 2)
 		s.runTx()
-		s.checkCommitted("after commit")
-		s.assertPartition("after commit")
-		s.checkSpace("after commit")
-		s.checkStats("after commit")
+		s.checkCommitted("after the transaction")
+		s.assertPartition("after the transaction")
+		s.checkSpace("after the transaction")
+		s.checkStats("after the transaction")
+	}
+	// capacity probe: exactly the counted pages can be allocated, not one more
+	if cfg.maxPages > 0 && !cfg.overflow {
+		n := int(s.availNow())
+		tx, err := s.f.Begin()
+		verifAssert(err == nil, "Begin succeeds")
+		ps, aerr := tx.AllocN(n)
+		verifAssert(aerr == nil && len(ps) == n, "every page counted as allocatable can be allocated")
+		w := s.m.clone()
+		for _, p := range ps {
+			s.checkOwnership(w, p.ID())
+			w.pages = append(w.pages, refPage{id: p.ID(), raw: true})
+		}
+		_, aerr2 := tx.Alloc()
+		verifAssert(aerr2 != nil && isKind(aerr2, OutOfMemory), "and not one page more")
+		verifAssert(tx.Rollback() == nil, "Rollback succeeds")
+		s.checkSpace("after the capacity probe")
 	}
 	verifReach("end")
 }
@@ -169,5 +203,123 @@ func VerifProgReopen() {
 	s.runTx()
 	s.checkCommitted("after a transaction on the reopened file")
 	s.assertPartition("after a transaction on the reopened file")
+	verifReach("end")
+}
+
+// VerifProgFreeCycle (C04, C11): many committed pages, then transactions that
+// only free pages (the free-list pages themselves move around in the meta
+// area while it has to grow), then allocation and overwrites; the ownership
+// partition must hold after every commit.
+func VerifProgFreeCycle() {
+	cfg := &progCfg{maxPages: 64, concrete: true}
+	cfg.metaArea = uint32(verifParam("metaarea", 0))
+	s := verifNewProg(cfg)
+	s.setup(verifParam("setup", 10))
+	s.assertPartition("after setup")
+	// two transactions that only free pages (how many and which ones is symbolic)
+	for round := 0; round < 2; round++ {
+		tx, err := s.f.Begin()
+		verifAssert(err == nil, "Begin succeeds")
+		w := s.m.clone()
+		s.freed = s.freed[:0]
+		nFree := 1 + verifChoose(verifParam("maxfree", 2))
+		for k := 0; k < nFree && len(w.pages) > 2; k++ {
+			i := len(w.pages) - 1 // the last page, or the second one
+			if verifChoose(2) == 1 {
+				i = 1
+			}
+			p, perr := tx.Page(w.pages[i].id)
+			verifAssert(perr == nil, "a live page can be accessed")
+			verifAssert(p.Free() == nil, "freeing a clean page succeeds")
+			s.freed = append(s.freed, w.pages[i].id)
+			w.remove(i)
+		}
+		verifAssert(tx.Commit() == nil, "Commit succeeds")
+		s.m = w.clone()
+		s.checkCommitted("after a transaction that frees pages")
+		s.assertPartition("after a transaction that frees pages")
+		s.checkSpace("after a transaction that frees pages")
+	}
+	// allocate and overwrite
+	cfg.ops = []int{opAlloc, opOverwrite}
+	cfg.nOps = verifParam("nops", 2)
+	cfg.endings = []int{endCommit}
+	s.runTx()
+	s.checkCommitted("after allocation and overwrites")
+	s.assertPartition("after allocation and overwrites")
+	s.checkSpace("after allocation and overwrites")
+	s.reopen()
+	s.checkCommitted("after reopen")
+	s.assertPartition("after reopen")
+	verifReach("end")
+}
+
+// VerifProgOverflow (C04, C07, C10): a bounded file whose data area is full;
+// a transaction with the overflow area enabled overwrites pages (its overwrite
+// and metadata pages come from beyond the maximum size); commit or rollback;
+// reopen.
+func VerifProgOverflow() {
+	cfg := &progCfg{maxPages: 64, concrete: true, overflow: true}
+	cfg.metaArea = uint32(verifParam("metaarea", 2))
+	s := verifNewProg(cfg)
+	s.setup(2)
+	// fill the data area completely (pages are allocated at the end of the file)
+	cfg.overflow = false
+	n := int(s.availNow())
+	if r := verifChoose(2); r == 1 {
+		n -= 1 // or leave one page
+	}
+	s.allocRaw(n)
+	cfg.overflow = true
+	s.assertPartition("full file")
+	before := snapOf(s.f)
+	statsBefore := s.f.stats
+
+	tx, err := s.f.BeginWith(TxOptions{EnableOverflowArea: true, WALLimit: uint(verifParam("wallimit", 0))})
+	verifAssert(err == nil, "Begin succeeds")
+	w := s.m.clone()
+	s.freed = s.freed[:0]
+	nOver := 1 + verifChoose(verifParam("maxover", 3))
+	for k := 0; k < nOver; k++ {
+		rp := &w.pages[k]
+		p, perr := tx.Page(rp.id)
+		verifAssert(perr == nil, "a live page can be accessed")
+		b0, b1 := s.content()
+		verifAssert(p.SetBytes(verifBuf(b0, b1, b1)) == nil, "overwriting a live page succeeds")
+		rp.b0, rp.b1, rp.last, rp.raw = b0, b1, b1, false
+	}
+	if verifBool("flush") {
+		verifAssert(tx.Flush() == nil, "Flush with the overflow area enabled succeeds")
+	}
+	checkView(tx, w, "inside the transaction")
+	if verifBool("commit") {
+		cerr := tx.Commit()
+		verifAssert(cerr == nil, "Commit with the overflow area enabled succeeds on a full file")
+		s.m = w.clone()
+	} else {
+		verifAssert(tx.Rollback() == nil, "Rollback succeeds")
+		assertSnapEqual(before, snapOf(s.f), "after rollback of a transaction that used the overflow area", true)
+		verifAssert(s.f.stats == statsBefore, "after rollback: FileStats unchanged")
+	}
+	s.checkCommitted("after the overflow transaction")
+	s.assertPartition("after the overflow transaction")
+	s.reopen()
+	s.checkCommitted("after reopen")
+	s.assertPartition("after reopen")
+	// free pages so that the overflow area can be released again, then use the file normally
+	cfg.overflow = false
+	tx2, err2 := s.f.BeginWith(TxOptions{EnableOverflowArea: true})
+	verifAssert(err2 == nil, "Begin succeeds")
+	w2 := s.m.clone()
+	for k := 0; k < 6 && len(w2.pages) > 3; k++ {
+		i := len(w2.pages) - 1
+		p, _ := tx2.Page(w2.pages[i].id)
+		verifAssert(p.Free() == nil, "free")
+		w2.remove(i)
+	}
+	verifAssert(tx2.Commit() == nil, "Commit succeeds")
+	s.m = w2.clone()
+	s.checkCommitted("after freeing pages")
+	s.assertPartition("after freeing pages")
 	verifReach("end")
 }
